@@ -295,6 +295,8 @@ async def one_call(C: Ctx, case: dict[str, Any]) -> None:
         R.monitor("transparent", ok, where={**where, "kind": "result-differs" if ref[0] == "value" else "exception-differs", "observed": type(got[1]).__name__ if got[0] == "raise" else "value"},
                   detail=f"{deco} {fname} form {args!r} {kwargs!r} depth {depth}: plain call -> {ref!r}, decorated -> {got!r}", case=case)
         inner = ctl.get("probe")
+        if R.want_sample(deco.split("-")[0]) and nontrivial:
+            R.sample({**{k: v for k, v in case.items() if not k.startswith("_")}, "args": repr(args), "kwargs": repr(kwargs), "plain": repr(ref), "decorated": repr(got), "inside": {k: repr(v) for k, v in (inner or {}).items()}}, kind=deco.split("-")[0])
         if deco.startswith("asynchronous") and inner is not None:
             off = inner["thread"] != C.loop_thread
             R.monitor("off-loop-thread", off and (blocker is None or beats["n"] >= 5), where={**where, "kind": "ran-on-loop-thread" if not off else "loop-starved"},
